@@ -347,6 +347,7 @@ func (in *Interp) beginPath(trace []int) {
 	in.cellSeq = 0
 	in.mapSeq = 0
 	in.steps = 0
+	in.depthReported = false
 	in.obligs = nil
 	in.obligPos = nil
 	in.inputs = nil
